@@ -558,10 +558,10 @@ static char * correct_dimension_units(char * original) {
 	result = my_strdup(original);
 
 	for (i = 0; result[i]; i++) {
-		result[i] = tolower(result[i]);
+		result[i] = tolower((unsigned char) result[i]);
 	}
 
-	if (strstr(&result[strlen(result) - 2], "px")) {
+	if ((strlen(result) >= 2) && strstr(&result[strlen(result) - 2], "px")) {
 		result[strlen(result) - 2] = '\0';
 		strcat(result, "pt");
 	}
